@@ -51,7 +51,7 @@ Qed.
 (* one chromosome, repaired rules: no crash, counts, block list, length bound                      *)
 Theorem chrom_repaired_props : forall only_snvs recs chrlen cid, sorted_recs only_snvs recs ->
   exists rows cr,
-    read_rows repaired_rules only_snvs None recs = Some rows /\
+    read_rows only_snvs None recs = Some rows /\
     process_rows repaired_rules chrlen cid rows = Some cr /\
     counts_ok (spec_of only_snvs recs) (cr_row cr) = true /\
     identities_ok (cr_row cr) (cr_blocklist cr) = true /\
@@ -59,7 +59,7 @@ Theorem chrom_repaired_props : forall only_snvs recs chrlen cid, sorted_recs onl
     cr_blocklist cr = map inj_line (s_blocklist (spec_of only_snvs recs)).
 Proof.
   intros o recs chrlen cid Hs. destruct (chrom_spec_repaired o recs chrlen cid Hs) as (cr & E1 & E2 & E3).
-  exists (map (row_of repaired_rules) (counted o recs)), cr. split. exact E1. split. exact E2.
+  exists (map row_of (counted o recs)), cr. split. exact E1. split. exact E2.
   unfold l1_row in E3. cbv zeta in E3.
   apply andb_true_iff in E3. destruct E3 as [E3 E4]. apply andb_true_iff in E3. destruct E3 as [E3 E5].
   apply andb_true_iff in E3. destruct E3 as [E6 E7].
@@ -105,7 +105,7 @@ Proof. unfold sorted_recs, f4_witness. cbn. repeat constructor; lia. Qed.
 
 Lemma f4_witness_legacy :
   exists rows cr,
-    read_rows legacy_rules false None f4_witness = Some rows /\
+    read_rows false None f4_witness = Some rows /\
     process_rows legacy_rules (fun _ => None) 1 rows = Some cr /\
     d_het (cr_row cr) = 5 /\ d_unphased (cr_row cr) = 3 /\
     s_het (spec_of false f4_witness) = 3 /\ s_unphased (spec_of false f4_witness) = 1 /\
@@ -123,7 +123,7 @@ Lemma psmissing_witness_sorted : sorted_recs false psmissing_witness.
 Proof. unfold sorted_recs, psmissing_witness. cbn. repeat constructor; lia. Qed.
 
 Lemma psmissing_witness_legacy :
-  exists rows, read_rows legacy_rules false None psmissing_witness = Some rows /\
+  exists rows, read_rows false None psmissing_witness = Some rows /\
                process_rows legacy_rules (fun _ => None) 1 rows = None.
 Proof. eexists. split. vm_compute. reflexivity. vm_compute. reflexivity. Qed.
 
@@ -131,7 +131,7 @@ Lemma counts_partition_legacy_refuted :
   ~ (forall (only_snvs : bool) (recs : list vrec) (chrlen : Z -> option Z) (cid : Z),
      sorted_recs only_snvs recs ->
      exists rows cr,
-       read_rows legacy_rules only_snvs None recs = Some rows /\
+       read_rows only_snvs None recs = Some rows /\
        process_rows legacy_rules chrlen cid rows = Some cr /\
        let d := cr_row cr in
        let s := spec_of only_snvs recs in
@@ -148,7 +148,7 @@ Qed.
 Lemma counts_partition_legacy_witness :
   exists recs, sorted_recs false recs /\
   exists rows cr,
-    read_rows legacy_rules false None recs = Some rows /\
+    read_rows false None recs = Some rows /\
     process_rows legacy_rules (fun _ => None) 1 rows = Some cr /\
     d_het (cr_row cr) = 5 /\ s_het (spec_of false recs) = 3 /\
     d_unphased (cr_row cr) = 3 /\ s_unphased (spec_of false recs) = 1.
@@ -160,7 +160,7 @@ Qed.
 
 Lemma no_crash_legacy_refuted :
   exists recs, sorted_recs false recs /\
-  exists rows, read_rows legacy_rules false None recs = Some rows /\
+  exists rows, read_rows false None recs = Some rows /\
                process_rows legacy_rules (fun _ => None) 1 rows = None.
 Proof.
   exists psmissing_witness. split. exact psmissing_witness_sorted. exact psmissing_witness_legacy.
@@ -171,7 +171,7 @@ Theorem chrom_repaired_statement :
   forall (only_snvs : bool) (recs : list vrec) (chrlen : Z -> option Z) (cid : Z),
   sorted_recs only_snvs recs ->
   exists rows cr,
-    read_rows repaired_rules only_snvs None recs = Some rows /\
+    read_rows only_snvs None recs = Some rows /\
     process_rows repaired_rules chrlen cid rows = Some cr /\
     let d := cr_row cr in
     let s := spec_of only_snvs recs in
@@ -187,7 +187,7 @@ Theorem block_list_repaired :
   forall (only_snvs : bool) (recs : list vrec) (chrlen : Z -> option Z) (cid : Z),
   sorted_recs only_snvs recs ->
   exists rows cr,
-    read_rows repaired_rules only_snvs None recs = Some rows /\
+    read_rows only_snvs None recs = Some rows /\
     process_rows repaired_rules chrlen cid rows = Some cr /\
     cr_blocklist cr = map inj_line (s_blocklist (spec_of only_snvs recs)).
 Proof.
@@ -199,7 +199,7 @@ Theorem lengths_repaired :
   forall (only_snvs : bool) (recs : list vrec) (chrlen : Z -> option Z) (cid : Z),
   sorted_recs only_snvs recs ->
   exists rows cr,
-    read_rows repaired_rules only_snvs None recs = Some rows /\
+    read_rows only_snvs None recs = Some rows /\
     process_rows repaired_rules chrlen cid rows = Some cr /\
     0 <= d_bmin (cr_row cr) /\ d_bmin (cr_row cr) <= d_bmax (cr_row cr) /\ d_bmax (cr_row cr) <= d_bsum (cr_row cr) /\
     d_bsum (cr_row cr) <= s_span (spec_of only_snvs recs).
